@@ -43,6 +43,21 @@ from functools import partial
 from lib import *
 
 THIS = os.path.abspath(__file__)
+import traceback
+
+class ImplError(Exception):
+    """the real code raised (or returned something unusable) on a well-formed input: becomes a violation carrying the input"""
+    def __init__(self, what, replay): Exception.__init__(self, what); self.what = what; self.replay = replay
+
+def guarded(ctx, cases, f, *a):
+    try:
+        cases.append(f(*a))
+    except ImplError as e:
+        ctx.violation(None, e.what, e.replay)
+
+def atype_names():
+    from src.isoform_assignment import ReadAssignmentType
+    return [m.name for m in ReadAssignmentType]
 PRESETS = {"exact": 0, "precise": 4, "default": 6, "loose": 12}      # documented --matching_strategy -> delta
 ABSD = 20                                                            # minimal_intron_absence_overlap (set_matching_options)
 
@@ -121,17 +136,24 @@ def counter_case(kd, ignore, maps, asgs, workdir):
     gis = [types.SimpleNamespace(exon_property_map=[obj(f) for f in em], intron_property_map=[obj(f) for f in im]) for em, im in maps]
     d = tempfile.mkdtemp(dir=workdir)
     c = (ExonCounter if kd == 0 else IntronCounter)(os.path.join(d, "x"), ignore_read_groups=ignore)
+    from src.isoform_assignment import ReadAssignmentType
     impl = "ok"
     try:
         for a in asgs:
             if a is None: c.add_read_info(None); continue
-            ra = types.SimpleNamespace(exon_gene_profile=a["ep"], intron_gene_profile=a["ip"], gene_info=None if a["gi"] is None else gis[a["gi"]], read_group=a["group"])
+            # the counters must treat every processed read alike: the assignment type (any member of the real enum) is carried but is not part of the model
+            ra = types.SimpleNamespace(exon_gene_profile=a["ep"], intron_gene_profile=a["ip"], gene_info=None if a["gi"] is None else gis[a["gi"]], read_group=a["group"],
+                                       assignment_type=ReadAssignmentType[a["atype"]] if a.get("atype") else None, read_id="r")
             if a.get("drop"): delattr(ra, a["drop"])
             c.add_read_info(ra)
         c.dump()
+        rows = parse_count_file(c.output_counts_file_name)
     except IndexError:
-        impl = None
-    rows = parse_count_file(c.output_counts_file_name) if impl else None
+        impl = None; rows = None
+    except Exception as e:
+        shutil.rmtree(d, ignore_errors=True)
+        raise ImplError("%s raises %s on a well-formed stream of read assignments" % (["ExonCounter", "IntronCounter"][kd], type(e).__name__),
+                        dict(kind=["exon", "intron"][kd], ignore_read_groups=ignore, property_maps=maps, assignments=asgs, error=traceback.format_exc()[-800:]))
     shutil.rmtree(d, ignore_errors=True)
     chrc = Codes([f["chr"] for m in maps for l in m for f in l] + ["chr1"]); genec = Codes([g for m in maps for l in m for f in l for g in f["genes"]] + ["g"])
     grpc = Codes([a["group"] for a in asgs if a] + ["NA"])
@@ -154,14 +176,15 @@ def counters(ctx, quick):
         # exhaustive: one gene_info with two exons and one intron; every sequence of <= 2 reads over profiles in {1,-1,0,-2}^2 x 2 groups (+ None), both counters, both group modes
         em = [feat("chr1", 10, 20, "+", "XU", ["g1"]), feat("chr1", 30, 40, "+-", "TSM", ["g2", "g1"])]; im = [feat("chr1", 21, 29, "+", "I", ["g1"])]
         profs2 = [list(p) for p in itertools.product([1, -1, 0, -2], repeat=2)]
-        atoms = [None] + [dict(ep=p, ip=[p[0]], gi=0, group=g) for p in profs2 for g in ("NA", "b")]
+        AT = atype_names()
+        atoms = [None] + [dict(ep=p, ip=[p[0]], gi=0, group=g, atype=AT[(i + k) % len(AT)]) for i, p in enumerate(profs2) for k, g in enumerate(("NA", "b"))]
         seqs = [[a] for a in atoms] + [[a, b] for a in atoms for b in atoms]
         if quick: seqs = seqs[:len(atoms)] + rnd.sample(seqs[len(atoms):], 500)
         for s in seqs:
             for kd in (0, 1):
                 for ignore in (True, False):
                     if quick and rnd.random() < .5: continue
-                    cases.append(counter_case(kd, ignore, [(em, im)], s, work))
+                    guarded(ctx, cases, counter_case, kd, ignore, [(em, im)], s, work)
         # random: several gene_infos (a feature of the annotation present in two of them = two ids with one text), profiles of every length, invalid assignments
         for it in range(700 if quick else 6000):
             maps = []
@@ -180,14 +203,14 @@ def counters(ctx, quick):
                 def prof(n):
                     L = n if rnd.random() < .8 else max(0, n + rnd.choice([-2, -1, 1, 2]))
                     return [rnd.choice([1, 1, -1, -1, 0, -2]) for _ in range(L)]
-                a = dict(ep=prof(len(em)), ip=prof(len(im)), gi=gi, group=rnd.choice(["NA", "a", "b", "G10", "G9"]))
+                a = dict(ep=prof(len(em)), ip=prof(len(im)), gi=gi, group=rnd.choice(["NA", "a", "b", "G10", "G9"]), atype=rnd.choice(AT))
                 x = rnd.random()
                 if x < .03: a["ep"] = None
                 elif x < .06: a["ip"] = None
                 elif x < .09: a["gi"] = None
                 elif x < .12: a["drop"] = rnd.choice(["exon_gene_profile", "intron_gene_profile", "gene_info"])
                 asgs.append(a)
-            cases.append(counter_case(rnd.randint(0, 1), rnd.random() < .5, maps, asgs, work))
+            guarded(ctx, cases, counter_case, rnd.randint(0, 1), rnd.random() < .5, maps, asgs, work)
     finally:
         shutil.rmtree(work, ignore_errors=True)
     ctx.rule("counters: the real ExonCounter / IntronCounter objects (add_read_info + dump into a file, parsed back): every sequence of <= 2 reads over all profiles in {1,-1,0,-2}^2 x 2 groups "
@@ -229,9 +252,13 @@ def props_case(delta, isoforms, K, chr_="chr1", dup_edges=False):
     from src.gene_info import GeneInfo, FeatureInfo
     me = types.SimpleNamespace(delta=delta, chr_id=chr_, isoform_strands={t: s for t, g, s, f in isoforms}, gene_id_map={t: g for t, g, s, f in isoforms})
     id0 = FeatureInfo.feature_id_counter.value
-    res = GeneInfo.set_feature_properties(me, collections.OrderedDict((t, list(f)) for t, g, s, f in isoforms), types.SimpleNamespace(features=list(K)))
+    try:
+        res = GeneInfo.set_feature_properties(me, collections.OrderedDict((t, list(f)) for t, g, s, f in isoforms), types.SimpleNamespace(features=list(K)))
+        res = [(p.id, p.chr_id, int(p.start), int(p.end), str(p.strand), str(p.type), sorted(p.gene_ids)) for p in res]
+    except Exception as e:
+        raise ImplError("set_feature_properties raises %s" % type(e).__name__, dict(delta=delta, isoforms=isoforms, features=K, error=traceback.format_exc()[-800:]))
     genec = Codes([g for t, g, s, f in isoforms] + ["g"]); chrc = Codes([chr_])
-    impl = [dict(id=p.id, chr=p.chr_id, start=p.start, end=p.end, strand=p.strand, flags=p.type, genes=sorted(p.gene_ids)) for p in res]
+    impl = [dict(id=p[0], chr=p[1], start=p[2], end=p[3], strand=p[4], flags=p[5], genes=p[6]) for p in res]
     term = "(((%d, %d, %d), %s, %s), %s)" % (delta, chrc(chr_), id0, tl(isoforms, lambda i: "((%s, %s), %s)" % (cz(genec(i[1])), cz(ord(i[2])), ivl(i[3])), "isoform"), ivl(K),
                                             tl(impl, lambda f: cfi(f, chrc, lambda g: genec(g)), "finfo"))
     return term, dict(delta=delta, isoforms=isoforms, features=K, impl=[(p["start"], p["end"], p["strand"], p["flags"], p["genes"]) for p in impl])
@@ -257,7 +284,7 @@ def feature_properties(ctx, quick):
         for kind in (0, 1):
             isos = [("t1", "g1", "+", a if kind == 0 else junctions_from_blocks(a)), ("t2", g2, s2, b if kind == 0 else junctions_from_blocks(b))]
             K = sorted(set(f for i in isos for f in i[3]))
-            cases.append(props_case(rnd.choice([0, 1]), isos, K))
+            guarded(ctx, cases, props_case, rnd.choice([0, 1]), isos, K)
     for it in range(400 if quick else 5000):
         pts = sorted(rnd.sample(range(1, 400), rnd.randint(4, 14))); pool = [(pts[2 * i], pts[2 * i + 1]) for i in range(len(pts) // 2)]
         isos = []
@@ -270,7 +297,7 @@ def feature_properties(ctx, quick):
         if kind == 1: isos = [(t, g, s, junctions_from_blocks(f)) for t, g, s, f in isos]
         K = sorted(set(f for i in isos for f in i[3]))
         if rnd.random() < .1 and K: K = K + [K[0]]                       # not produced by the pipeline (features are a sorted set); the model follows anyway
-        cases.append(props_case(rnd.choice([0, 2, 4, 6, 12]), isos, K))
+        guarded(ctx, cases, props_case, rnd.choice([0, 2, 4, 6, 12]), isos, K)
     ctx.rule("set_feature_properties (real method on a stub GeneInfo): all pairs of isoforms with <= 3 exons over 5 positions (sampled in quick) as exon and as intron features, "
              "same / different gene and strand, delta 0-1 + random genes of 1-5 isoforms over a shared exon pool with alternative sites, 1-3 genes, both strands, delta 0-12; gene lists "
              "compared as sets; non-trivial = a feature flagged S, C or M")
@@ -325,20 +352,28 @@ def gene_case(delta, isoforms, reads, work, ignore):
     """reads: list of (group, blocks, polya, polyt).  Real CombinedProfileConstructor -> real ExonCounter/IntronCounter -> files."""
     from src.long_read_profiles import CombinedProfileConstructor
     from src.long_read_counter import ExonCounter, IntronCounter
-    gi = stub_gene_info(isoforms, delta)
-    params = types.SimpleNamespace(delta=delta, minimal_intron_absence_overlap=ABSD, minimal_exon_overlap=5, count_exons=True)
-    cons = CombinedProfileConstructor(gi, params)
+    from src.isoform_assignment import ReadAssignmentType
+    AT = list(ReadAssignmentType)
     d = tempfile.mkdtemp(dir=work)
-    ec = ExonCounter(os.path.join(d, "e"), ignore_read_groups=ignore); ic = IntronCounter(os.path.join(d, "i"), ignore_read_groups=ignore)
-    eprofs = []; iprofs = []
-    for grp, blocks, pa, pt in reads:
-        cp = cons.construct_profiles(list(blocks), types.SimpleNamespace(external_polya_pos=pa, external_polyt_pos=pt), [])
-        ra = types.SimpleNamespace(exon_gene_profile=cp.read_exon_profile.gene_profile, intron_gene_profile=cp.read_intron_profile.gene_profile, gene_info=gi, read_group=grp)
-        eprofs.append(list(ra.exon_gene_profile)); iprofs.append(list(ra.intron_gene_profile))
-        ec.add_read_info(ra); ic.add_read_info(ra)
-    ec.dump(); ic.dump()
-    erows = parse_count_file(ec.output_counts_file_name); irows = parse_count_file(ic.output_counts_file_name)
-    shutil.rmtree(d, ignore_errors=True)
+    try:
+        gi = stub_gene_info(isoforms, delta)
+        params = types.SimpleNamespace(delta=delta, minimal_intron_absence_overlap=ABSD, minimal_exon_overlap=5, count_exons=True)
+        cons = CombinedProfileConstructor(gi, params)
+        ec = ExonCounter(os.path.join(d, "e"), ignore_read_groups=ignore); ic = IntronCounter(os.path.join(d, "i"), ignore_read_groups=ignore)
+        eprofs = []; iprofs = []
+        for n, (grp, blocks, pa, pt) in enumerate(reads):
+            cp = cons.construct_profiles(list(blocks), types.SimpleNamespace(external_polya_pos=pa, external_polyt_pos=pt), [])
+            # every processed read is counted, whatever its assignment type (all members of the real enum are used in turn)
+            ra = types.SimpleNamespace(exon_gene_profile=cp.read_exon_profile.gene_profile, intron_gene_profile=cp.read_intron_profile.gene_profile, gene_info=gi, read_group=grp,
+                                       assignment_type=AT[(n + len(blocks)) % len(AT)], read_id="r%d" % n)
+            eprofs.append([int(x) for x in ra.exon_gene_profile]); iprofs.append([int(x) for x in ra.intron_gene_profile])
+            ec.add_read_info(ra); ic.add_read_info(ra)
+        ec.dump(); ic.dump()
+        erows = parse_count_file(ec.output_counts_file_name); irows = parse_count_file(ic.output_counts_file_name)
+    except Exception as e:
+        raise ImplError("profile constructors / counters raise %s on a well-formed gene cluster" % type(e).__name__, dict(delta=delta, isoforms=isoforms, reads=reads, error=traceback.format_exc()[-800:]))
+    finally:
+        shutil.rmtree(d, ignore_errors=True)
     genec = Codes([g for t, g, s, f in isoforms]); chrc = lambda c: 1; grpc = Codes([r[0] for r in reads] + ["NA"])
     g_of = (lambda g: grpc("NA")) if ignore else grpc
     term = "(((((%s, %s), %s), %s), %s), (%s, %s))" % (
@@ -376,7 +411,9 @@ def gene_clusters(ctx, quick):
         for a, b in rnd.sample(combos, 500 if quick else 6000):
             isos = [("t1", "g1", "+", a)] + ([("t2", rnd.choice(["g1", "g2"]), rnd.choice("+-"), b)] if b else [])
             rs = [(rnd.choice(["NA", "a", "b"]), r, -1, -1) for r in rnd.sample(reads_all, 10)]
-            c, cl = gene_case(rnd.choice([0, 1, 2]), isos, rs, work, rnd.random() < .5); cases.append(c); clean += cl
+            try:
+                c, cl = gene_case(rnd.choice([0, 1, 2]), isos, rs, work, rnd.random() < .5); cases.append(c); clean += cl
+            except ImplError as e: ctx.violation(None, e.what, e.replay)
         # random gene clusters: shared pool, alternative sites, a second gene on the other strand sharing exons; reads = isoforms with jitter, skipped exons, retained introns, truncation, polyA/polyT
         for it in range(250 if quick else 3000):
             delta = rnd.choice([0, 4, 6, 12])
@@ -406,7 +443,9 @@ def gene_clusters(ctx, quick):
                     ex = [e for i, e in enumerate(ex) if i == 0 or e[0] > ex[i - 1][1] + 1]
                 pa = rnd.choice([-1, -1, ex[-1][1], ex[-1][1] + rnd.randint(0, 20)]); pt = rnd.choice([-1, -1, -1, ex[0][0], max(1, ex[0][0] - rnd.randint(0, 20))])
                 reads.append((rnd.choice(["NA", "zeta", "alpha", "G10", "G9"]), ex, pa, pt))
-            c, cl = gene_case(delta, isos, reads, work, rnd.random() < .4); cases.append(c); clean += cl
+            try:
+                c, cl = gene_case(delta, isos, reads, work, rnd.random() < .4); cases.append(c); clean += cl
+            except ImplError as e: ctx.violation(None, e.what, e.replay)
     finally:
         shutil.rmtree(work, ignore_errors=True)
     ctx.rule("gene clusters (real CombinedProfileConstructor -> real ExonCounter/IntronCounter -> files): 1-2 isoforms of <= 3 exons over 7 positions x 10 reads of <= 2 blocks, delta 0-2 "
@@ -453,6 +492,53 @@ def hyp_key(delta, K, blocks, kind):
     if not h2: return "C13:profile-shadowed-match"
     if not h1: return "C13:profile-short-feature"
     return None
+
+def py_value(kd, d, absd, K, blocks, pa, pt, k):
+    """mirror of FeatureCounts.rec_value, used only to describe a failing file (feature, reads) in its replay"""
+    R = list(blocks) if kd == 0 else [(a[1] + 1, b[0] - 1) for a, b in zip(blocks, blocks[1:]) if a[1] + 1 < b[0]]
+    m = (blocks[0][1] + d, blocks[-1][0] - d) if kd == 0 else (blocks[0][0], blocks[-1][1])
+    if (pa != -1 and k[0] > pa + d) or (pt != -1 and k[1] < pt - d): return -2
+    def absent(f):
+        if kd == 0: return m[1] >= f[1] and m[0] <= f[0]
+        o1 = m[1] - f[0]; o2 = f[1] - m[0]
+        if o1 < 0 or o2 < 0: return False
+        return (o1 >= absd - 1 or m[0] >= f[0]) if m[1] < f[1] else (o2 >= absd - 1 or m[0] <= f[0])
+    eqd = lambda r, f: abs(r[0] - f[0]) <= d and abs(r[1] - f[1]) <= d
+    def midx(f):
+        for i, r in enumerate(R):
+            if r[1] < f[0]: continue
+            return i if (not f[1] < r[0]) and eqd(r, f) else None
+        return None
+    ini = -1 if absent(k) else 0
+    i = midx(k)
+    if i is not None:
+        r = R[i]; md = lambda f: abs(r[0] - f[0]) + abs(r[1] - f[1])
+        return -1 if any(midx(f) == i and md(f) < md(k) for f in K if abs(f[0] - r[0]) <= d) else 1
+    for j, r in enumerate(R):
+        if r[1] < k[0]: continue
+        return (-1 if j > 0 else ini) if k[1] < r[0] else ini
+    return ini
+
+def diagnose(side):
+    """first features whose summed lines differ from the recount, with the reads that contain / skip them"""
+    kd, delta, ann, recs, rows, grp = side; out = []
+    for c in ann:
+        feats = sorted(set(f for i in ann[c] for f in (i[3] if kd == 0 else [(a[1] + 1, b[0] - 1) for a, b in zip(i[3], i[3][1:]) if a[1] + 1 < b[0]])))
+        rc = [r for r in recs if r["chr"] == c]
+        obs = collections.defaultdict(lambda: [0, 0])
+        for r in rows:
+            if r["chr"] == c: obs[(r["start"], r["end"], r["group"])][0] += r["incl"]; obs[(r["start"], r["end"], r["group"])][1] += r["excl"]
+        for k in feats:
+            exp = collections.defaultdict(lambda: [0, 0]); who = collections.defaultdict(list)
+            for r in rc:
+                if r["exons"][-1][1] < k[0] - delta - 1 or r["exons"][0][0] > k[1] + delta + 1: continue
+                v = py_value(kd, delta, ABSD, feats, r["exons"], r["polya"], r["polyt"], k)
+                if v in (1, -1): exp[grp(r)][0 if v == 1 else 1] += 1; who[grp(r)].append((r["read_id"], r["type"], "include" if v == 1 else "exclude"))
+            for g in set(list(exp) + [x[2] for x in obs if x[:2] == k]):
+                if obs.get((k[0], k[1], g), [0, 0]) != exp.get(g, [0, 0]):
+                    out.append(dict(chr=c, feature=k, group=g, lines_sum_include_exclude=obs.get((k[0], k[1], g), [0, 0]), recount_include_exclude=exp.get(g, [0, 0]), reads=who.get(g, [])[:12]))
+                    if len(out) >= 3: return out
+    return out
 
 def load_annotation(gtf):
     import pipeline as P
@@ -528,6 +614,11 @@ def c13_world(seed, rnd):
             e2 = [(a, b) for a, b in e2 if a <= b]
             if any(a[1] + 1 >= b[0] for a, b in zip(e2, e2[1:])) or not e2: e2 = list(ex)
             w.add_read("%s_%s_%d" % (kind, tid, n), c, e2, strand, polya=polya, indel=indel, tags={"RG": rnd.choice(["zeta", "alpha", "G10", "G9"])} if rnd.random() < .85 else {}); n += 1
+        # unspliced reads lying inside an intron (reported as noninformative): they skip the intron, so they must add to its exclude count
+        for a, b in zip(ex, ex[1:]):
+            if b[0] - a[1] > 260 and rnd.random() < .6:
+                s0 = a[1] + rnd.randint(25, 60); w.add_read("intronic_%s_%d" % (tid, n), c, [(s0, min(b[0] - 25, s0 + rnd.randint(90, 400)))], strand, polya=False,
+                                                            tags={"RG": rnd.choice(["zeta", "alpha", "G10", "G9"])}); n += 1
     return w, isoforms, genes
 
 def write_c13_world(w, isoforms, genes, out_dir):
@@ -556,7 +647,7 @@ def pipeline(ctx, quick):
         common = ["--complete_genedb", "-p", "S", "--count_exons"]
         jobs = []
         def bjob(name, strat, extra, group_of, dt="nanopore", hashseed="0"):
-            jobs.append(dict(name="bundled/" + name, strat=strat, gtf=b["gtf"], group_of=group_of, out=os.path.join(root, "b%d" % len(jobs)), hashseed=hashseed,
+            jobs.append(dict(name="bundled/" + name, strat=strat, delta_arg=None, gtf=b["gtf"], group_of=group_of, out=os.path.join(root, "b%d" % len(jobs)), hashseed=hashseed,
                              args=["--bam", b["bam"], "--reference", b["fasta"], "--genedb", b["gtf"], "--data_type", dt] + (["--matching_strategy", strat] if strat else []) + common + extra))
         bjob("default/file-groups", None, ["--read_group", "file:%s:0:1" % gtab], lambda n: btruth.get(n, "NA"))
         bjob("precise/threads2", "precise", ["--threads", "2"], None, hashseed="3")
@@ -567,12 +658,16 @@ def pipeline(ctx, quick):
         for wi, ws in enumerate(worlds):
             wd = os.path.join(root, "w%d" % wi); w, isoforms, genes = c13_world(ws, random.Random(ws * 7 + 1)); paths = write_c13_world(w, isoforms, genes, wd)
             wtruth = {r["name"]: r["tags"].get("RG", "NA") for r in w.reads}
-            for strat, extra in (("default", ["--read_group", "tag:RG", "--threads", "2"]), ("exact", []), ("loose", ["--read_group", "tag:RG"])) if not quick or wi == 0 else ():
-                if quick and strat == "exact": continue
-                jobs.append(dict(name="synthetic%d/%s" % (ws, strat), strat=strat, gtf=os.path.join(wd, "annotation.gtf"), group_of=(lambda n, t=wtruth: t[n]) if extra else None,
-                                 out=os.path.join(root, "w%d_%s" % (wi, strat)), hashseed=str(wi),
+            # (matching strategy, explicit --delta or None, further options); an explicit --delta (0 and a non-preset value) must be the delta of the counts
+            plan = [("default", None, ["--read_group", "tag:RG", "--threads", "2"]), ("default", 0, ["--read_group", "tag:RG"]), ("precise", 3, [])]
+            if not quick: plan += [("exact", None, []), ("loose", None, ["--read_group", "tag:RG"]), ("loose", 0, []), ("default", 9, [])]
+            if wi > 0: plan = [plan[0], ("loose", 0, []), ("default", 9, ["--read_group", "tag:RG"])]       # further worlds: grouped default, explicit delta 0 and 9
+            for strat, darg, extra in plan if not quick or wi == 0 else ():
+                jobs.append(dict(name="synthetic%d/%s%s" % (ws, strat, "" if darg is None else "/--delta %d" % darg), strat=strat, delta_arg=darg, gtf=os.path.join(wd, "annotation.gtf"),
+                                 group_of=(lambda n, t=wtruth: t[n]) if "--read_group" in extra else None,
+                                 out=os.path.join(root, "w%d_%d" % (wi, len(jobs))), hashseed=str(wi),
                                  args=["--bam", paths[0], "--reference", os.path.join(wd, "genome.fa"), "--genedb", os.path.join(wd, "annotation.gtf"), "--data_type", "nanopore",
-                                       "--matching_strategy", strat] + common + extra))
+                                       "--matching_strategy", strat] + ([] if darg is None else ["--delta", str(darg)]) + common + extra))
         run_jobs(jobs)
         ctx.cov["pipeline_runs"] += len(jobs)
         cases = []; ann_cache = {}; tcases = []
@@ -580,10 +675,15 @@ def pipeline(ctx, quick):
             rep = {"run": j["name"], "args": [a.replace(root, "<scratch>") for a in j["args"]], "PYTHONHASHSEED": j["hashseed"]}
             if j["rc"] != 0:
                 ctx.violation(None, "IsoQuant run with --count_exons failed (exit %d)" % j["rc"], dict(rep, log=j["log"][-1500:])); continue
-            delta = PRESETS[j["strat"] or ("precise" if "pacbio_ccs" in j["args"] else "default")]
+            # the delta that was ASKED for: an explicit --delta, else the documented preset of the matching strategy
+            delta = j["delta_arg"] if j["delta_arg"] is not None else PRESETS[j["strat"] or ("precise" if "pacbio_ccs" in j["args"] else "default")]
             trace, deltas, bad = read_trace(os.path.join(j["out"] + "_trace", "t"))
-            if bad or deltas != {(delta, ABSD)}:
-                ctx.broken("pipeline:trace", "run %s: trace reports (delta, absence overlap) %s, expected %s; logging errors %s" % (j["name"], sorted(deltas), (delta, ABSD), bad[:2])); continue
+            if bad:
+                ctx.broken("pipeline:trace", "run %s: logging errors in the trace %s" % (j["name"], bad[:2])); continue
+            rep["requested (delta, intron absence overlap)"] = (delta, ABSD); rep["parameters seen by the profile constructors"] = sorted(deltas)
+            if deltas and deltas != {(delta, ABSD)}:
+                # not an abort: the recount below uses the requested delta and names the miscounted feature; this records the cause
+                ctx.violation(None, "the profile constructors of a --count_exons run work with a delta other than the one requested on the command line", dict(rep))
             if j["gtf"] not in ann_cache: ann_cache[j["gtf"]] = load_annotation(j["gtf"])
             ann = ann_cache[j["gtf"]]
             recs = []; last = None; missing = 0
@@ -629,16 +729,24 @@ def pipeline(ctx, quick):
                         tl(rows, lambda r: crow(r, chrc, genec, grpc), ROWT))
                 keyc = collections.Counter((r["chr"], r["start"], r["end"], r["strand"], r["group"]) for r in rows)
                 dups = sorted(k for k, n in keyc.items() if n > 1)
-                cases.append((term, dict(rep, file=fn, delta=delta, records=len(recs), lines=len(rows), groups=sorted(set(r["group"] for r in rows)),
+                cases.append((term, dict(rep, _side=(kd, delta, ann, recs, rows, grp), file=fn, delta=delta, records=len(recs), lines=len(rows), groups=sorted(set(r["group"] for r in rows)),
                                          records_profiled_in_several_regions=[dict(read_id=r["read_id"], exons=r["exons"], gene_lists=r["alts"]) for r in recs if len(r["alts"]) > 1][:8], duplicated_keys=dups[:10], n_duplicated=len(dups),
                                          example_duplicates=[r for r in rows if (r["chr"], r["start"], r["end"], r["strand"], r["group"]) in dups[:2]][:6])))
+        sides = {}
+        for _, o in cases: sides[id(o)] = o.pop("_side")
+        def describe(viol):
+            for o in viol:
+                if "miscounted_features" not in o:
+                    try: o["miscounted_features"] = diagnose(sides[id(o)])
+                    except Exception: o["miscounted_features"] = "diagnosis failed: " + traceback.format_exc()[-300:]
         pre0 = PRE_PIPE + "Definition check (c:T) := true.\nDefinition prop := fco_region.\n"
         mism, viol = ctx.corr("pipeline_feature_counts_by_region", pre0, cases, shard=1, nontrivial=lambda o: o["lines"] > 0, ctype="T", timeout=900)
-        bad_sum = set(id(o) for o in viol)
+        bad_sum = set(id(o) for o in viol); describe(viol)
         ctx.corr_report("pipeline_feature_counts_by_region", mism, viol, what="exon/intron count file of a whole run: per (chromosome, start, end, strand, group) the lines do not add up to the recount from the "
                         "processed records and the annotation (even when a record profiled in several sub-regions is allowed to count with any of its gene lists), or a line's flags / strand / gene set differ from the annotation")
         pre1 = PRE_PIPE + "Definition check (c:T) := true.\nDefinition prop := fco.\n"
         mism, viol = ctx.corr("pipeline_feature_counts", pre1, cases, shard=1, nontrivial=lambda o: o["lines"] > 0, ctype="T", timeout=900)
+        describe(viol)
         # the property itself; matched to the known finding only when the region-aware recount accepts the same file and a record was profiled with differing gene lists
         ctx.corr_report("pipeline_feature_counts", mism, viol, keyfn=lambda o: "C13:split-region-gene-info" if id(o) not in bad_sum and o["records_profiled_in_several_regions"] else None,
                         what="exon/intron count file of a whole run: per (chromosome, start, end, strand, group) the lines do not add up to the number of processed records that contain / skip the feature")
@@ -652,6 +760,8 @@ def pipeline(ctx, quick):
                         what="a gene profile computed inside the pipeline violates `include iff contained within delta / exclude iff spanned without containing`")
         ctx.rule("pipeline profiles: a sample of the traced construct_profiles calls of every run; check = the sweep model and the declarative per-feature values over the features of the "
                  "traced gene list (from the GTF) give the exon and intron gene profiles computed inside the pipeline (position i = feature i); prop = clean statement, keyed by H1/H2")
+        ctx.rule("pipeline configurations: matching strategies (delta presets) and explicit --delta 0 / 3 / 9 (the recount always uses the delta that was asked for), threads, --high_memory, "
+                 "grouping by table and by tag; the generated reads include unspliced reads inside introns (noninformative) and reads 1-9 bp off annotated exon boundaries")
         ctx.rule("pipeline: isoquant.py --count_exons (through a tracing wrapper that only records polyA/polyT positions and delta) on the bundled chr9 data (matching strategies = delta presets, "
                  "threads, --high_memory, group table) and on generated two-chromosome annotations with similar / contained / multi-gene features and reads that include, skip and shift "
                  "exons (RG groups); exon_counts / intron_counts and their grouped variants are recounted inside Coq from read_assignments.tsv + GTF (feature_counts_ok: lines summed per "
@@ -666,10 +776,11 @@ def pipeline(ctx, quick):
 def run(ctx):
     quick = ctx.tier == "quick"
     ctx.prepare("C13.v")
-    counters(ctx, quick)
-    feature_properties(ctx, quick)
-    gene_clusters(ctx, quick)
-    pipeline(ctx, quick)
+    for section in (counters, feature_properties, gene_clusters, pipeline):
+        try:
+            section(ctx, quick)
+        except Exception:
+            ctx.broken("harness:%s" % section.__name__, "exception in section %s of the check (the other sections still ran):\n%s" % (section.__name__, traceback.format_exc()[-3000:]))
     ctx.assume.append("strings are interned order-preservingly (group names: Python sorted() = order of the codes); single-character strands; gene lists compared as sets (their order in a line is a hash-seed matter, C06)")
     ctx.assume.append("pipeline level: processed records = maximal runs of lines of read_assignments.tsv with equal (read id, chromosome, exons, type); external polyA/polyT positions come from the trace of the real AlignmentInfo.construct_profiles call of that record; pysam / gffutils parsing")
     ctx.assume.append("delta presets exact 0 / precise 4 / default 6 / loose 12 (documented) and minimal_intron_absence_overlap 20, cross-checked against the traced parameters")
